@@ -362,7 +362,7 @@ func TestC18(t *testing.T) {
 		c := DTValueCase{
 			Kind: rapid.SampledFrom(dtKinds).Draw(rt, "kind"), Year: rapid.IntRange(1, 9999).Draw(rt, "y"), Month: rapid.IntRange(1, 12).Draw(rt, "mo"), Day: rapid.IntRange(1, 28).Draw(rt, "d"),
 			Hour: rapid.IntRange(0, 23).Draw(rt, "h"), Min: rapid.IntRange(0, 59).Draw(rt, "mi"), Sec: rapid.IntRange(0, 59).Draw(rt, "s"),
-			Nanos: rapid.SampledFrom([]int{0, 1, 10, 999999999, 500000000, 123000000, 100}).Draw(rt, "ns") * rapid.IntRange(1, 1).Draw(rt, "one"),
+			Nanos:  rapid.SampledFrom([]int{0, 1, 10, 999999999, 500000000, 123000000, 100}).Draw(rt, "ns") * rapid.IntRange(1, 1).Draw(rt, "one"),
 			Offset: rapid.IntRange(-14*60, 14*60).Draw(rt, "off") * 60,
 			Zone:   rapid.SampledFrom([]string{"", "UTC", "+05:30", "-12:00", "America/New_York"}).Draw(rt, "zone"),
 		}
